@@ -274,10 +274,14 @@ impl DBInner {
 
     pub(crate) fn resize(&self, file: &File, new_size: u64) -> Result<Arc<Mmap>> {
         file.allocate(new_size)?;
+        #[cfg(feature = "verif-hooks")]
+        crate::verif::point("resize.before_write_lock", new_size);
         let _lock = self.mmap_lock.write()?;
         let mut data = self.data.lock()?;
         let mmap = mmap(file, self.flags.mmap_populate)?;
         *data = Arc::new(mmap);
+        #[cfg(feature = "verif-hooks")]
+        crate::verif::point("resize.after_remap", new_size);
         Ok(data.clone())
     }
 
